@@ -129,15 +129,21 @@ def analyse(case, r):
         for e in evs:
             seq.setdefault(e["ev"], []).append(e["seq"])
         if "q.enqueue" in seq and "t.cancel.call" in seq:
+            # From its enqueue to the terminal message its handler receives a query is in the waiting queue, with the puller
+            # (being admitted) or in the running table: a CancelQuery call made in that span must find it.  q.cancel.miss =
+            # the call looked everywhere and found nothing.
             enq = seq["q.enqueue"][0]
             deq = seq.get("q.dequeue", [10 ** 12])[0]
+            run = min(seq.get("q.run", [10 ** 12])[0], seq.get("q.run.skip", [10 ** 12])[0])
+            term = min([e["seq"] for e in evs if e["ev"] == "h.recv" and e["kv"]["state"] in TERMINAL] or [10 ** 12])
             for c_call in seq["t.cancel.call"]:
-                misses = [s for s in seq.get("q.cancel.miss", []) if s > c_call]
-                if c_call > enq and misses and misses[0] < deq:
+                misses = [s_ for s_ in seq.get("q.cancel.miss", []) if s_ > c_call]
+                if c_call > enq and misses and misses[0] < term:
                     if oc == "ok" or oc.startswith("err:"):
-                        f.append(("C17:cancel:ignored-while-waiting",
-                                  "CancelQuery(qid=%d) issued while the query was in the waiting queue had no effect: the "
-                                  "query later ran and returned %r (events %s)" % (q, oc[:40], names)))
+                        phase = "while-waiting" if misses[0] < deq else ("between-dequeue-and-run" if misses[0] < run else "while-running")
+                        f.append(("C17:cancel:ignored-" + phase,
+                                  "CancelQuery(qid=%d) issued while the query was live (%s) found nothing and had no effect: the "
+                                  "query returned %r (events %s)" % (q, phase.replace("-", " "), oc[:40], names)))
                     break
     # admission limit, read directly from the values logged under the table lock
     dequeued = set(e["kv"].get("qid") for e in ev if e["ev"] == "q.dequeue")
